@@ -18,6 +18,9 @@ NeverPruneStep == act.name # "PruneStep"
 NeverRestart == act.name # "Restart"
 NeverQuery == act.name # "Query"
 NeverInitPut == ~(act.name \in {"Store", "Revert", "Query", "Snapshot"} /\ res.muts >= 2)
+NeverInitFailed == ~(res.kind = "failed" /\ res.init)
+NeverInitCrashed == ~(res.kind = "crashed" /\ res.init)
+NeverInitFailedInQuery == ~(res.kind = "failed" /\ res.init /\ act.name = "Query")
 NeverFailedWrite == res.kind # "failed"
 NeverCrashedMidPrune == ~(res.kind = "crashed" /\ act.name = "PruneStep")
 NeverCrossedBack == ~(act.name = "Revert" /\ res.kind = "ok" /\ act.n = Boundary - 1 /\ mem.rf.w = 0)
